@@ -48,6 +48,7 @@ type J = map[string]interface{}
 type Spec struct {
 	Graphs   [][]string `json:"graphs"` // graph i is named ?g<i>
 	Query    string     `json:"query"`
+	Pre      []string   `json:"pre,omitempty"` // statements executed before Query on the same store (results discarded)
 	ChanSize int        `json:"chan"`
 	BulkSize int        `json:"bulk"`
 	Procs    int        `json:"procs"`
@@ -325,6 +326,15 @@ func runSpec(sp Spec) J {
 		return out
 	}
 	out["graphs"] = dump
+	// a sequence of statements on the same store: the earlier ones only warm whatever the store or the planner keeps
+	for _, pq := range sp.Pre {
+		if pstm, _ := parse(pq); pstm != nil {
+			execute(ctx, st, pstm, sp)
+		}
+	}
+	if len(sp.Pre) > 0 {
+		out["pre"] = sp.Pre
+	}
 	stm, k := parse(sp.Query)
 	if stm == nil {
 		out["result"] = J{"kind": k}
